@@ -408,14 +408,29 @@ impl Prop for C14 {
         };
         let bp = blueprint(game, behaviour, &mut t);
         let rt_seed = t.full_u64(CFG);
-        let (module_entry, protocol_entry) = paths(id, game);
+        let (module_entry, mut protocol_entry) = paths(id, game);
+        // in the blocks without a module path, Valve games are also queried with extra request settings in
+        // which some fields are left out: a field left out means the protocol's documented default
+        // (Try / Try / check on), whatever the game's definition says
+        let mut extra: Option<gamedig::protocols::types::ExtraRequestSettings> = None;
+        if with_ts && t.draw(CFG, 2) == 0 {
+            if let (Protocol::Valve(engine), Some(Entry::Valve { .. })) = (&game.protocol, &protocol_entry) {
+                let opt = |t: &mut Tape| if t.draw(CFG, 2) == 0 { None } else { Some(crate::gen::toggle(t)) };
+                let (gp, gr) = (opt(&mut t), opt(&mut t));
+                let chk = if t.draw(CFG, 2) == 0 { None } else { Some(t.draw(CFG, 2) == 0) };
+                extra = Some(gamedig::protocols::types::ExtraRequestSettings { hostname: None, protocol_version: None, gather_players: gp, gather_rules: gr, check_app_id: chk });
+                let gs = GatheringSettings { players: gp.unwrap_or(gamedig::protocols::types::GatherToggle::Try), rules: gr.unwrap_or(gamedig::protocols::types::GatherToggle::Try), check_app_id: chk.unwrap_or(true) };
+                protocol_entry = Some(Entry::Valve { engine: *engine, gather: Some(gs) });
+                out.probe("extra_request_settings_with_fields_left_out");
+            }
+        }
         let eco = matches!(game.protocol, Protocol::PROPRIETARY(ProprietaryProtocol::Eco));
         let run_path = |entry: Entry| -> RunOut {
             let call = Call { entry, ip: SERVER_IP, port, default_port: golden, timeout: ts };
             run_call(world_from(&bp, &ports, rt_seed), &call)
         };
         // (a) the generic definition-driven entry point
-        let ra = run_path(Entry::Generic { game_id: id, extra: None, level: 2 });
+        let ra = run_path(Entry::Generic { game_id: id, extra: extra.clone(), level: 2 });
         let module_entry = if with_ts { None } else { module_entry };
         if with_ts {
             out.probe("explicit_timeout_settings");
